@@ -156,7 +156,9 @@ func (s *Sim) anyConnecting() bool {
 			continue
 		}
 		c.mu.Lock()
-		x := c.connecting && c.peerClosed == 0 && !c.localClosed
+		// until a state callback (Active/Closed/Disconnected) shows that Connect is
+		// over: the transport may be dead while Connect still holds its lock
+		x := c.connecting
 		c.mu.Unlock()
 		if x {
 			return true
